@@ -106,6 +106,17 @@ CHECKS.update({
             "DESIGN.md §4 C09"),
 })
 
+CHECKS.update({
+    "C17": ("quinnrig", "byte-conservation / identifier / error-mapping runtime monitor over real Quinn loopback connections: the h3_quinn adapter is driven through the h3::quic traits against a raw quinn peer with flow-control windows swept from 1 byte to 1 MiB (arbitrary partial writes), premature second writes, an id-query state matrix incl. pending and abandoned reads, peer close/reset/stop/timeout with code sets; optional AddressSanitizer build",
+            "66 (quick) / ~3000 (thorough) real connections; the raw peer's received byte string must equal the reference-encoded frames of every accepted send_data exactly once and in order, premature writes must be refused, send_id/recv_id must equal Quinn's id in all 14 read/write states without panicking, and peer conditions must map to the right h3 error class with the code preserved. Wall-clock is a watchdog only (inconclusive). Held-on-observed.",
+            "Real sockets: evaluation counts vary slightly between runs; scenarios hit by Quinn/loopback trouble are discarded (inconclusive above 2 %); trusts quinn 0.11's own ids and the reference frame encoder.",
+            "DESIGN.md §4 C17"),
+    "C19": ("simquic+sched", "session-id / wire-header / payload equality runtime monitor for WebTransport: a raw client establishes sessions on CONNECT streams with 1-, 2-, 4- and 8-byte ids, sends WebTransport streams with every cut position through the stream header and first payload bytes, and reads what the server opens; three read APIs",
+            "Every cut of header+payload for short payloads is enumerated (complete) for all ids x {bidi, uni} x {poll_data, futures AsyncRead, tokio AsyncRead}; thousands of random sessions besides; session ids at the API and on the wire must equal the CONNECT stream id and payloads must arrive intact; disabled extension must surface nothing. Held-on-observed.",
+            "Raw client's SETTINGS applied before the CONNECT (two phases); WebTransport streams released after the session exists.",
+            "DESIGN.md §4 C19"),
+})
+
 NOT_YET = {}
 
 def main():
